@@ -337,6 +337,16 @@ NOT_BUILT_REASON = "check not built (see DESIGN.md)"
 def main():
     checks = []
     for pid, c in sorted(CHECKS.items()):
+        # the explored space as the check itself states it (kept current with the check)
+        try:
+            import importlib
+            rule = importlib.import_module(f"vf.checks.{pid.lower()}").CHECK.rule
+        except Exception:  # noqa: BLE001
+            rule = ""
+        c = dict(c)
+        if rule:
+            c["text"] = (c["text"] + " -- Explored space as built (the check's own rule text, "
+                         "extended after each wave of seeded changes): " + rule)
         checks.append({
             "property_id": pid,
             "quick_cmd": f"./check {pid} --tier quick",
